@@ -291,7 +291,9 @@ func (inv *Invoice) Correct(opts ...schema.Option) error {
 		Code:      inv.Code,
 		IssueDate: inv.IssueDate.Clone(),
 		Reason:    o.Reason,
-		Ext:       o.Ext,
+		// a copy: the document's normalisers edit this map, and the options
+		// belong to the caller, who may use them again
+		Ext: copyExtensions(o.Ext),
 	}
 	if o.CopyTax && inv.Totals != nil {
 		pre.Tax = inv.Totals.Taxes.Clone()
@@ -320,6 +322,17 @@ func (inv *Invoice) Correct(opts ...schema.Option) error {
 	// this operation on the corrected invoice results in potentially
 	// conflicting or incomplete data.
 	return inv.Calculate()
+}
+
+func copyExtensions(em tax.Extensions) tax.Extensions {
+	if em == nil {
+		return nil
+	}
+	out := make(tax.Extensions, len(em))
+	for k, v := range em {
+		out[k] = v
+	}
+	return out
 }
 
 // correctionDef tries to determine a final correction definition
